@@ -90,6 +90,13 @@ func c04Run(ctx *core.Ctx) {
 				}
 			}
 		}
+		for _, site := range []string{"Mail", "Rcpt"} {
+			for _, t2 := range []string{"data", "bdat"} {
+				for _, mode := range []srvMode{modeSMTP, modeLMTPRcpt, modeLMTP} {
+					emit(c04Case{Kind: "slowcb", Site: site, T2: t2, Mode: mode})
+				}
+			}
+		}
 		for _, tls := range []string{"plain", "implicit", "starttls"} {
 			for _, rt := range []bool{false, true} {
 				for _, wt := range []bool{false, true} {
@@ -115,6 +122,99 @@ func c04Exec(ctx *core.Ctx, c c04Case) {
 		c04Echo(ctx, c)
 	case "clock":
 		c04Clock(ctx, c)
+	case "slowcb":
+		c04SlowCallback(ctx, c)
+	}
+}
+
+// c04SlowCallback: a backend callback takes longer than ReadTimeout while the peer has already
+// pipelined the next commands (and, for BDAT, the payload). The time the backend took is not the
+// peer's idle time: every command line is read under a deadline of its own, so the pipelined
+// DATA / BDAT and the message behind it are served normally.
+func c04SlowCallback(ctx *core.Ctx, c c04Case) {
+	ctx.Eval(fmt.Sprintf("slowcb|%s|%s|%s", c.Site, c.T2, c.Mode), true)
+	rig := newRig(c.Mode, func(s *smtp.Server) { s.ReadTimeout = time.Hour })
+	gate := rec.NewGate()
+	defer gate.OpenAll()
+	rig.BE.H.Mail = func(int, string, *smtp.MailOptions) error {
+		if c.Site == "Mail" {
+			gate.Wait("slow")
+		}
+		return nil
+	}
+	rig.BE.H.Rcpt = func(int, string, *smtp.RcptOptions) error {
+		if c.Site == "Rcpt" {
+			gate.Wait("slow")
+		}
+		return nil
+	}
+	p := rig.Dial()
+	var all []wire.Reply
+	fail := func(sig, msg string) {
+		ctx.Violate(sig, msg+fmt.Sprintf(" [slow callback=%s transfer=%s mode=%s]", c.Site, c.T2, c.Mode), c, witness(rig.Log, all))
+	}
+	p.SendStr(c.Mode.hello() + "\r\n")
+	rs, err := expect(p, 2)
+	all = append(all, rs...)
+	if err != nil {
+		p.Close()
+		rig.Finish()
+		ctx.Inconclusive("C04 slowcb preamble")
+		return
+	}
+	// one segment: the envelope and the start of the transfer
+	burst := "MAIL FROM:<s@x.test>\r\nRCPT TO:<r@x.test>\r\n"
+	want := []int{250, 250}
+	if c.T2 == "data" {
+		burst += "DATA\r\n"
+		want = append(want, 354)
+	} else {
+		burst += "BDAT 12 LAST\r\nchunk-data\r\n"
+		want = append(want, 250)
+	}
+	p.SendStr(burst)
+	if !gate.WaitParked("slow") {
+		p.Close()
+		rig.Finish()
+		ctx.Inconclusive("C04 slowcb: callback not reached")
+		return
+	}
+	// more than ReadTimeout passes while the backend is busy
+	if p.SrvEnd.FireReadDeadline() {
+		rig.Log.Act("read deadline expired while the backend was busy in " + c.Site)
+	}
+	gate.Open("slow")
+	rs, err = expect(p, len(want))
+	all = append(all, rs...)
+	if err != nil || codes(rs) != strings.Trim(strings.ReplaceAll(fmt.Sprint(want), " ", ","), "[]") {
+		p.Close()
+		rig.Finish()
+		fail("C04:stale-deadline-after-slow-callback", fmt.Sprintf("the commands pipelined behind the slow %s callback were answered %s (%v), expected %v", c.Site, codes(rs), err, want))
+		return
+	}
+	if c.T2 == "data" {
+		p.SendStr("body line\r\n.\r\n")
+		r, err := p.ReadReply()
+		all = append(all, r)
+		if err != nil || r.Code != 250 {
+			p.Close()
+			rig.Finish()
+			fail("C04:stale-deadline-after-slow-callback", fmt.Sprintf("the message sent promptly after the 354 was answered %s (%v)", r, err))
+			return
+		}
+	}
+	p.SendStr("NOOP\r\nQUIT\r\n")
+	rs, _ = p.ReadAll()
+	all = append(all, rs...)
+	p.Close()
+	rig.Finish()
+	if codes(rs) != "250,221" {
+		fail("C04:stale-deadline-after-slow-callback", fmt.Sprintf("NOOP, QUIT after the message were answered %s", codes(rs)))
+		return
+	}
+	ctx.Add("replies_parsed", int64(len(all)))
+	if ctx.WantSample("slowcb/" + c.Site) {
+		ctx.Sample("slowcb/"+c.Site, map[string]any{"slow_callback": c.Site, "transfer": c.T2, "mode": c.Mode, "replies": codes(all)})
 	}
 }
 
